@@ -143,7 +143,7 @@ func (o *c10Oracle) after(ch *chain, ci *callInfo) *Violation {
 	return nil
 }
 
-var c10Profile = &histProfile{Batches: true, MaxBlocks: 20, MinBlocksOf: []int{2, 6, 12}, Evidence: 6, Missed: 3, Restart: 8, MaxTxs: 6,
+var c10Profile = &histProfile{Batches: true, OwnerBias: 3, MaxBlocks: 20, MinBlocksOf: []int{2, 6, 12}, Evidence: 6, Missed: 3, Restart: 8, MaxTxs: 6,
 	TxKinds: []string{"award", "award", "award", "award", "send", "send", "stake", "unstake", "burn", "dao", "param", "raw"}}
 
 func execC10(prog interface{}, c *Case) *Violation {
